@@ -27,15 +27,16 @@ CharIdx(chars, b, k, off) == IF off >= b \/ k >= Len(chars) THEN k ELSE CharIdx(
 \*  a token of a greedy rule is the longest match of that rule at its start
 TokenOk(C, chars, t) ==
   IF t[1] < 2 THEN TRUE
-  ELSE LET rules == C.modes[1].rules
-           cand == {r \in DOMAIN rules : rules[r].kind = "token" /\ rules[r].tok = t[1]}
+  ELSE LET \* the token rules of *any* mode that carry this token type
+           cand == UNION {{C.modes[m].rules[r] : r \in {q \in DOMAIN C.modes[m].rules :
+                              C.modes[m].rules[q].kind = "token" /\ C.modes[m].rules[q].tok = t[1]}} : m \in DOMAIN C.modes}
            i == CharIdx(chars, t[2], 0, 0)
            j == CharIdx(chars, t[3], 0, 0)
-       IN \E r \in cand :
-            LET ends == RuleEnds(C.macros, rules[r].expr, chars, i) \ {i}
+       IN \E rl \in cand :
+            LET ends == RuleEnds(C.macros, rl.expr, chars, i) \ {i}
             IN /\ j \in ends
-               /\ IF NGShape(C.macros, rules[r].expr) THEN \A x \in ends : j <= x
-                  ELSE IF HasNG(C.macros, rules[r].expr) THEN TRUE      \* outside the shape C08 describes: only "is a match"
+               /\ IF NGShape(C.macros, rl.expr) THEN \A x \in ends : j <= x
+                  ELSE IF HasNG(C.macros, rl.expr) THEN TRUE      \* outside the shape C08 describes: only "is a match"
                   ELSE \A x \in ends : j >= x
 
 Check ==
